@@ -427,7 +427,7 @@ func RunCheck(id, tier, verifDir, self string) int {
 		os.WriteFile(p, b, 0o644)
 		if i < 40 {
 			fmt.Printf("VIOLATION property=%s replay=%s\n", id, p)
-			fmt.Printf("  class=%s key=%s count=%d\n  witness: %s\n  detail: %s\n", v.WitnessFailure.Class, v.WitnessFailure.Key, v.Count, clip(v.Witness, 600), clip(v.Failure.Detail, 600))
+			fmt.Printf("  class=%s key=%s count=%d\n  witness: %s\n  detail: %s\n", v.WitnessFailure.Class, v.WitnessFailure.Key, v.Count, clip(v.Witness, 600), clip(v.WitnessFailure.Detail, 600))
 		}
 		if i < 5 {
 			freshSamples = append(freshSamples, map[string]interface{}{"class": v.WitnessFailure.Class, "key": v.WitnessFailure.Key, "witness": clip(v.Witness, 400)})
